@@ -92,7 +92,32 @@ def gen(rng, tier):
         if len(D) > 50000 and rs in ("1", "3,1,2"):
             rs = "977"
         cases.append((D, "%d %d %d %d %d %d %d %d %s %d %s %s" % (comp, level, manual, mn, mx, ht, cht, uflag, vlib.hexs(dic), fd0, segment(rng, D, manual), rs)))
+    # large minimum chunk sizes around the default maximum (10 MiB), with and without an explicit maximum, and more than
+    # the minimum written into one chunk.  A minimum above the default maximum with no maximum set may be refused (the
+    # library compares against the default); when it is accepted the round trip must work.
+    MiB = 1 << 20
+    big = [(11 * MiB, 0, 12 * MiB, True), (10 * MiB, 0, 11 * MiB, True), (11 * MiB, 12 * MiB, 13 * MiB, False)]
+    for (mn, mx, total, may_refuse) in big:
+        for manual in (0, 1):
+            unit = rng.rbytes(4093)
+            cnt = total // len(unit)
+            D = unit * cnt + b"tail"
+            ops = "X%d:%s,W%s" % (cnt, unit.hex(), b"tail".hex())
+            cases.append((D, "%d %d %d %d %d %d %d %d %s %d %s %s" % (rng.choice([0, 2]), -1, manual, mn, mx, 0, 0, 0, "-", 0, ops, "1048576"),
+                          ) + ((True,) if may_refuse else ()))
     return cases
+
+
+def expand(line):
+    """content written by a case line (W<hex> and X<count>:<hex> operations)"""
+    out = b""
+    for o in line.split()[10].split(","):
+        if o[0] == "W":
+            out += bytes.fromhex(o[1:])
+        elif o[0] == "X":
+            c, hx = o[1:].split(":")
+            out += bytes.fromhex(hx) * int(c)
+    return out
 
 
 def parse(line):
@@ -107,16 +132,18 @@ def parse(line):
 def library_part(res, tier, rng, only=None):
     impl = vlib.ensure_harness("zh_c01", "asan")
     wd = vlib.scratch("C01")
-    cases = gen(rng, tier) if only is None else [(bytes.fromhex(only["content_hex"]), only["line"])]
+    cases = gen(rng, tier) if only is None else [(bytes.fromhex(only["content_hex"]) if only.get("content_hex") else expand(only["line"]), only["line"]) + ((True,) if only.get("may_refuse") else ())]
     lines = [c[1] for c in cases]
     io, errs = vlib.run_cases_resilient(impl, lines, wd, "lib", env={"ZH_TMP": wd}, timeout=3000, max_restarts=6)
     em = dict(errs)
-    for k, ((D, line), o) in enumerate(zip(cases, io)):
+    for k, (cs, o) in enumerate(zip(cases, io)):
+        D, line = cs[0], cs[1]
+        may_refuse = len(cs) > 2
         res.evaluations += 1
         d = parse(o)
         cfg = " ".join(line.split()[:10])
         key = "c01:lib:%s:%s" % (cfg.replace(" ", "_")[:60], hashlib.sha256(line.encode()).hexdigest()[:12])
-        case = {"line": line if len(line) < 20000 else line[:200] + "...", "content_hex": D.hex() if len(D) < 5000 else None, "impl": o[-300:], "cfg": cfg,
+        case = {"line": line if len(line) < 20000 else line[:200] + "...", "may_refuse": may_refuse, "content_hex": D.hex() if len(D) < 5000 else None, "impl": o[-300:], "cfg": cfg,
                 "content_sha256": hashlib.sha256(D).hexdigest(), "content_len": len(D)}
         if len(D) > 1:
             res.nontrivial.add(key)
@@ -126,6 +153,9 @@ def library_part(res, tier, rng, only=None):
                 res.violation("oracle", key, "round trip under [%s] ends in %s %s" % (cfg, o[-30:], vlib.san_summary(em.get(k, ""))[:300]), case)
             continue
         want = "%s/%d" % (hashlib.sha256(D).hexdigest(), len(D))
+        if may_refuse and d.get("opts") == "0":
+            res.count("lib:large-min-refused")
+            continue
         if d.get("opts") != "1" or d.get("writes") != "1" or d.get("close") != "1":
             res.violation("oracle", key, "writer refuses or fails a legal configuration [%s]: %s" % (cfg, o[:120]), case)
         elif not (d.get("open") == "1" and d.get("v") == "1" and d.get("d") == "1" and d.get("rd") == "0" and d.get("rclose") == "1" and d.get("content") == want):
